@@ -1017,7 +1017,14 @@ class Registry:
             if p in kwargs:
                 env[p] = kwargs[p]
             elif i >= dstart:
-                r = ex.eval(st, defaults[i - dstart])
+                d = defaults[i - dstart]
+                # Python evaluates a default once, at definition time: a default that builds a mutable object
+                # (a call, a list / dict / set display) is shared by all calls -- state the executor does not model
+                if any(isinstance(x, (ast.Call, ast.List, ast.Dict, ast.Set, ast.ListComp, ast.DictComp, ast.SetComp))
+                       for x in ast.walk(d)):
+                    raise EngineUnsupported(f"parameter {p} has a mutable default evaluated once at definition time "
+                                            f"(shared between calls); line {getattr(node, 'lineno', '?')}")
+                r = ex.eval(st, d)
                 env[p] = r[0][1]
             else:
                 raise EngineUnsupported(f"missing argument {p} (TypeError) at line {getattr(node, 'lineno', '?')}")
@@ -1186,14 +1193,32 @@ class Registry:
             if isinstance(result, (VTuple,)) and isinstance(rty, Ty):
                 result = ex.freeze(s, result, rty)
         else:
-            result = self.fresh_of(ex, s, rty, f"{short}_result", "local")
+            # an ensures clause `result is <parameter>` (the function returns one of its arguments): the result *is*
+            # that object, so aliasing between the returned value and the argument is modelled
+            alias = None
+            for cl in c.ensures:
+                b = cl.fn.body
+                if isinstance(b, ast.Compare) and len(b.ops) == 1 and isinstance(b.ops[0], ast.Is) \
+                        and isinstance(b.left, ast.Name) and b.left.id == "result" \
+                        and isinstance(b.comparators[0], ast.Name) and isinstance(env.get(b.comparators[0].id), VRef):
+                    alias = env[b.comparators[0].id]
+            result = alias if alias is not None else self.fresh_of(ex, s, rty, f"{short}_result", "local")
         renv = dict(env)
         renv["result"] = result
         for cl in c.ensures:
             if self.bind_identity(ex, s, cl.fn, renv):
                 continue
             t = self.spec_eval(ex, s, cl.fn, self.lambda_env(cl.fn, renv), pre_heap=pre_heap, params=env)
-            s.assume(ex.truth(s, t), f"post:{short}.{cl.name}")
+            tt = ex.truth(s, t)
+            if z3.is_false(z3.simplify(tt)):
+                # assuming it would make everything after this call provable: the contract cannot be applied here
+                raise EngineUnsupported(f"postcondition {cl.name} of {short} is identically false at this call site "
+                                        f"(line {getattr(node, 'lineno', '?')}): the callee's contract does not fit this call")
+            s.assume(tt, f"post:{short}.{cl.name}")
+        # vacuity guard: the callee's postconditions must be consistent with what the caller knows on this path
+        if solve.quick_unsat([h for _, h in s.pc], timeout_ms=400):
+            raise EngineUnsupported(f"the contract of {short} contradicts the caller's path condition at line "
+                                    f"{getattr(node, 'lineno', '?')}: everything after the call would be vacuously provable")
         outs.append((s, result))
         return outs
 
